@@ -208,10 +208,11 @@ BUCKETS = grid.Grid("buckets", TOGGLES, free=BASE + c01.OPT_FREE)
 
 
 def judge(w):
-    case = w["case"]
-    if "b_scheme" in case:
-        return evaluate_bucket(case)[0]
-    return evaluate_idem(case)[0]
+    if w.get("kind") == "bucket":
+        full = BUCKETS.default_case()
+        full.update(w["case"])
+        return evaluate_bucket(full)[0]
+    return evaluate_idem(w["case"])[0]
 
 
 def fails_fn(clause, w):
@@ -222,9 +223,12 @@ def fails_fn(clause, w):
 
 
 def simplify(w):
-    case = w["case"]
-    g = BUCKETS if "b_scheme" in case else c01.ALL
-    return [{"case": c} for c in g.simplify(case)]
+    g = BUCKETS if w.get("kind") == "bucket" else c01.ALL
+    out = g.wsimplify(w)
+    if w.get("kind") == "bucket":
+        for o in out:
+            o["kind"] = "bucket"
+    return out
 
 
 def run(chk):
@@ -238,7 +242,7 @@ def run(chk):
     )
     d = 2 if quick else 3
     failures, tags = grid.run(chk, BUCKETS, d, evaluate_bucket)
-    all_f = [(c, {"case": case}, e, g) for (c, case, e, g) in failures]
+    all_f = [(c, dict(BUCKETS.wit(case), kind="bucket"), e, g) for (c, case, e, g) in failures]
     chk.clause(PROP + ".bucket", checked=chk.cov["states"], nontrivial=tags.get("nontrivial", 0))
     chk.cov["bounds"] = {"bucket toggles d": d}
     n0 = chk.cov["states"]
